@@ -733,20 +733,6 @@ AP(limit, timeLimited, period, tbl, minAmt, maxAmt, fee) ==
    active |-> TRUE, deputy |-> Deputy, fee |-> fee, minAmt |-> minAmt, maxAmt |-> maxAmt,
    minLock |-> 1, maxLock |-> 2]
 
-(* parameter sets selectable from the configs *)
-NoParams == <<>>
-ParamsA == ("htltone" :> AP(4, FALSE, 0, 0, 1, 3, 0)) @@ ("htlttwo" :> AP(5, TRUE, 2, 3, 1, 3, 1))
-ParamsB == ("htltone" :> AP(2, FALSE, 0, 0, 1, 3, 0)) @@ ("htlttwo" :> AP(5, TRUE, 2, 3, 1, 3, 1))
-ParamsC == ("htlttwo" :> AP(5, TRUE, 3, 2, 1, 3, 1))                     \* asset one removed
-ParamsD == ("htltone" :> AP(4, FALSE, 0, 0, 1, 3, 0)) @@ ("htlttwo" :> AP(6, TRUE, 2, 4, 1, 2, 0))
-ParamsBad == ("htltone" :> AP(2, TRUE, 2, 3, 1, 3, 0))                   \* tbl > limit: invalid
-ParamsOne == ("htltone" :> AP(4, FALSE, 0, 0, 1, 3, 0))
-ParamsTwo == ("htlttwo" :> AP(5, TRUE, 2, 3, 1, 3, 1))
-ParamAltsAll == {ParamsA, ParamsB, ParamsC, ParamsD, ParamsBad}
-ParamAltsFew == {ParamsB, ParamsC}
-ParamAltsOne == {("htltone" :> AP(2, FALSE, 0, 0, 1, 3, 0)), NoParams}
-ParamAltsTwo == {ParamsTwo, ("htlttwo" :> AP(3, TRUE, 3, 2, 1, 3, 1)), <<>>}
-
 (* asset life cycle (thorough configs): one asset, parameter sets that switch
    it off, tighten the swap range / the lock range, raise the fee, change the
    deputy — all with transfers in flight *)
@@ -759,6 +745,22 @@ ParamAltsLife == {("htltone" :> APx(6, FALSE, "dep", 0, 1, 3, 1, 2)),     \* swi
                   ("htltone" :> APx(6, TRUE, "dep", 0, 2, 2, 2, 2)),      \* swap range and lock range tightened
                   ("htltone" :> APx(6, TRUE, "dep", 1, 1, 3, 1, 2)),      \* fee raised
                   ("htltone" :> APx(6, TRUE, "u2", 0, 1, 3, 1, 2))}       \* deputy changed
+
+(* parameter sets selectable from the configs *)
+NoParams == <<>>
+ParamsA == ("htltone" :> AP(4, FALSE, 0, 0, 1, 3, 0)) @@ ("htlttwo" :> AP(5, TRUE, 2, 3, 1, 3, 1))
+ParamsB == ("htltone" :> AP(2, FALSE, 0, 0, 1, 3, 0)) @@ ("htlttwo" :> AP(5, TRUE, 2, 3, 1, 3, 1))
+ParamsC == ("htlttwo" :> AP(5, TRUE, 3, 2, 1, 3, 1))                     \* asset one removed
+ParamsD == ("htltone" :> AP(4, FALSE, 0, 0, 1, 3, 0)) @@ ("htlttwo" :> AP(6, TRUE, 2, 4, 1, 2, 0))
+ParamsBad == ("htltone" :> AP(2, TRUE, 2, 3, 1, 3, 0))                   \* tbl > limit: invalid
+ParamsOne == ("htltone" :> AP(4, FALSE, 0, 0, 1, 3, 0))
+ParamsTwo == ("htlttwo" :> AP(5, TRUE, 2, 3, 1, 3, 1))
+ParamsOff == ("htltone" :> APx(4, FALSE, "dep", 0, 1, 3, 1, 2)) @@ ("htlttwo" :> AP(5, TRUE, 2, 3, 1, 3, 1))
+ParamsTight == ("htltone" :> APx(4, TRUE, "u2", 1, 2, 2, 2, 2)) @@ ("htlttwo" :> AP(5, TRUE, 2, 3, 1, 3, 1))
+ParamAltsAll == {ParamsA, ParamsB, ParamsC, ParamsD, ParamsBad, ParamsOff, ParamsTight}
+ParamAltsFew == {ParamsB, ParamsC}
+ParamAltsOne == {("htltone" :> AP(2, FALSE, 0, 0, 1, 3, 0)), NoParams}
+ParamAltsTwo == {ParamsTwo, ("htlttwo" :> AP(3, TRUE, 3, 2, 1, 3, 1)), <<>>}
 
 TP(id, sender, to, amt, sec, lts, ts, transfer) ==
   [id |-> id, sender |-> sender, to |-> to, amt |-> amt, sec |-> sec,
@@ -792,7 +794,7 @@ TemplatesAssets == {TplIn1, TplOut1, TplIn2, TplIn2b, TplPlainAsset}
 TemplatesOne == {TplIn1, TplIn1b, TplOut1, TplPlainAsset}
 TemplatesTwo == {TplIn2, TplIn2b, TplOut2}
 TemplatesGen == {TplMulti, TplSelf, TplOtherTs, TplSame, TplBlocked, TplIn1, TplIn1b, TplOut1,
-                 TplIn2, TplIn2b, TplOut2, TplBadTs, TplNoDep, TplPlainAsset}
+                 TplIn2, TplIn2b, TplOut2, TplBadTs, TplNoDep, TplPlainAsset, TplIn1c, TplOut1c, TplToMod}
 
 Init0 ==
   [h |-> 1, now |-> 0, prev |-> 0, inBlock |-> FALSE,
